@@ -155,6 +155,9 @@ static void ls_dir(const char* root, const char* rel, int depth, int* first) {
     closedir(d);
 }
 static U32 putpath(U32 at, const char* hex) { return (U32)unhex(hex, mem->data + at); }
+/* the first path of a call lies at PATH1 - or, after "pathsatend 1", so that its last byte is the last byte of linear memory */
+static int paths_at_end; static U32 p1;
+static U32 putpath1(const char* hex) { static U8 tmp[70000]; U32 len = (U32)unhex(hex, tmp); p1 = paths_at_end ? (U32)MEMSIZE - len : PATH1; memcpy(mem->data + p1, tmp, len); return len; }
 
 int main(int argc, char** argv) {
     FILE* sc; char line[70000]; const char* sandbox; int ai, nargs = 0, nenv = 0; char* wargv[64]; char* wenv[64];
@@ -202,6 +205,7 @@ int main(int argc, char** argv) {
         if (nt == 0) continue;
         strncpy(cmd, tok[0], 31); cmd[31] = 0;
         if (nt > 1) abi = tok[1][0];
+        if (!strcmp(cmd, "pathsatend")) { paths_at_end = atoi(tok[1]); continue; }
 #ifdef VERIF_FAULTS
         if (!strcmp(cmd, "inject")) { strncpy(pending_family, tok[1], 31); pending_errno = atoi(tok[2]); continue; }
 #endif
@@ -212,8 +216,8 @@ int main(int argc, char** argv) {
         begin();
         ARM();          /* the marshalling below calls no host function */
         if (!strcmp(cmd, "open")) {
-            U32 len = putpath(PATH1, tok[3]); memcpy(before, mem->data, MEMSIZE);
-            err = CALL(abi, path_open, (NULL, (U32)strtoul(tok[2], 0, 10), 0, PATH1, len, (U32)strtoul(tok[4], 0, 10), strtoull(tok[5], 0, 16), strtoull(tok[5], 0, 16), (U32)strtoul(tok[6], 0, 10), R1));
+            U32 len = putpath1(tok[3]); memcpy(before, mem->data, MEMSIZE);
+            err = CALL(abi, path_open, (NULL, (U32)strtoul(tok[2], 0, 10), 0, p1, len, (U32)strtoul(tok[4], 0, 10), strtoull(tok[5], 0, 16), strtoull(tok[5], 0, 16), (U32)strtoul(tok[6], 0, 10), R1));
         } else if (!strcmp(cmd, "write") || !strcmp(cmd, "pwrite")) {
             /* up to 16 segments: 256 bytes apart; more (up to 64): 16 bytes apart */
             int pw = cmd[0] == 'p', base = pw ? 4 : 3, n = nt - base; U32 S = n > 16 ? 0x10 : 0x100;
@@ -239,20 +243,20 @@ int main(int argc, char** argv) {
         else if (!strcmp(cmd, "readdir")) { U32 bl = (U32)strtoul(tok[3], 0, 10); memset(mem->data + DIRBUF, 0xEE, 0x8000); memcpy(before, mem->data, MEMSIZE);
             err = CALL(abi, fd_readdir, (NULL, (U32)strtoul(tok[2], 0, 10), DIRBUF, bl, strtoull(tok[4], 0, 10), R1)); }
         else if (!strcmp(cmd, "mkdir") || !strcmp(cmd, "rmdir") || !strcmp(cmd, "unlink")) {
-            U32 len = putpath(PATH1, tok[3]), fd = (U32)strtoul(tok[2], 0, 10); memcpy(before, mem->data, MEMSIZE);
-            err = cmd[0] == 'm' ? CALL(abi, path_create_directory, (NULL, fd, PATH1, len)) : cmd[0] == 'r' ? CALL(abi, path_remove_directory, (NULL, fd, PATH1, len)) : CALL(abi, path_unlink_file, (NULL, fd, PATH1, len));
+            U32 len = putpath1(tok[3]), fd = (U32)strtoul(tok[2], 0, 10); memcpy(before, mem->data, MEMSIZE);
+            err = cmd[0] == 'm' ? CALL(abi, path_create_directory, (NULL, fd, p1, len)) : cmd[0] == 'r' ? CALL(abi, path_remove_directory, (NULL, fd, p1, len)) : CALL(abi, path_unlink_file, (NULL, fd, p1, len));
         } else if (!strcmp(cmd, "rename")) {
-            U32 l1 = putpath(PATH1, tok[3]), l2 = putpath(PATH2, tok[5]); memcpy(before, mem->data, MEMSIZE);
-            err = CALL(abi, path_rename, (NULL, (U32)strtoul(tok[2], 0, 10), PATH1, l1, (U32)strtoul(tok[4], 0, 10), PATH2, l2));
+            U32 l1 = putpath1(tok[3]), l2 = putpath(PATH2, tok[5]); memcpy(before, mem->data, MEMSIZE);
+            err = CALL(abi, path_rename, (NULL, (U32)strtoul(tok[2], 0, 10), p1, l1, (U32)strtoul(tok[4], 0, 10), PATH2, l2));
         } else if (!strcmp(cmd, "symlink")) {
-            U32 l1 = putpath(PATH1, tok[2]), l2 = putpath(PATH2, tok[4]); memcpy(before, mem->data, MEMSIZE);
-            err = CALL(abi, path_symlink, (NULL, PATH1, l1, (U32)strtoul(tok[3], 0, 10), PATH2, l2));
+            U32 l1 = putpath1(tok[2]), l2 = putpath(PATH2, tok[4]); memcpy(before, mem->data, MEMSIZE);
+            err = CALL(abi, path_symlink, (NULL, p1, l1, (U32)strtoul(tok[3], 0, 10), PATH2, l2));
         } else if (!strcmp(cmd, "readlink")) {
-            U32 l1 = putpath(PATH1, tok[3]); memset(mem->data + RBUF, 0xEE, 0x400); memcpy(before, mem->data, MEMSIZE);
-            err = CALL(abi, path_readlink, (NULL, (U32)strtoul(tok[2], 0, 10), PATH1, l1, RBUF, (U32)strtoul(tok[4], 0, 10), R1));
+            U32 l1 = putpath1(tok[3]); memset(mem->data + RBUF, 0xEE, 0x400); memcpy(before, mem->data, MEMSIZE);
+            err = CALL(abi, path_readlink, (NULL, (U32)strtoul(tok[2], 0, 10), p1, l1, RBUF, (U32)strtoul(tok[4], 0, 10), R1));
         } else if (!strcmp(cmd, "pathstat")) {
-            U32 l1 = putpath(PATH1, tok[3]); memcpy(before, mem->data, MEMSIZE);
-            err = CALL(abi, path_filestat_get, (NULL, (U32)strtoul(tok[2], 0, 10), 0, PATH1, l1, STAT));
+            U32 l1 = putpath1(tok[3]); memcpy(before, mem->data, MEMSIZE);
+            err = CALL(abi, path_filestat_get, (NULL, (U32)strtoul(tok[2], 0, 10), 0, p1, l1, STAT));
         } else if (!strcmp(cmd, "argsizes")) err = CALL(abi, args_sizes_get, (NULL, R1, R2));
         else if (!strcmp(cmd, "args")) {
             /* args ABI [ptrs buf nptrbytes nbufbytes]: where the guest wants the pointer array and the strings (default BIG, BIG + 0x1000) */
